@@ -113,6 +113,23 @@ def build_pomdp(c):
     return pomdp
 
 
+def prime_with_other_discount(pomdp, c):
+    """class: the SAME POMDP object used again after one of its parameters was changed.  The object is first
+    evaluated (float64 and float32) under another discount rate, then `pomdp.discount_rate` is reassigned to the
+    case's discount; everything the case measures afterwards must follow the CURRENT value"""
+    if not c.get("gamma_first"):
+        return
+    import numpy as np, torch
+    from msdm.algorithms.fscgradientascent import stochastic_fsc_policy_evaluation_exact
+    final = pomdp.discount_rate
+    pomdp.discount_rate = fl(c["gamma_first"])
+    nA, nS, nO = pomdp.observation_matrix.shape
+    for dt in (torch.float64, torch.float32):
+        stochastic_fsc_policy_evaluation_exact(pomdp, torch.full((1, nA), 1.0 / nA, dtype=dt), torch.ones((1, nA, nO, 1), dtype=dt),
+                                               fsc_initial_state=torch.ones(1, dtype=dt), dtype=dt)
+    pomdp.discount_rate = final
+
+
 def lists(pomdp):
     out = {"shape": list(pomdp.observation_matrix.shape)}
     gi = getattr(pomdp, "_gen_index", None)
@@ -232,6 +249,7 @@ def run_eval(c):
     from msdm.core.pomdp.finitestatecontroller import StochasticFiniteStateController
     pomdp = build_pomdp(c["pomdp"])
     out = lists(pomdp)
+    prime_with_other_discount(pomdp, c)
     f = c["fsc"]
     pi, om, ini = nd(f["pi"]), nd(f["om"]), nd(f["init"])
     snap = (pi.copy(), om.copy(), ini.copy())
@@ -308,6 +326,7 @@ def run_bpi(c):
     import msdm.algorithms.fscboundedpolicyiteration as B
     pomdp = build_pomdp(c["pomdp"])
     out = lists(pomdp)
+    prime_with_other_discount(pomdp, c)
     evals, lps = [], []
     orig_eval = B.stochastic_fsc_policy_evaluation_exact
 
@@ -336,8 +355,9 @@ def run_bpi(c):
 
     B.stochastic_fsc_policy_evaluation_exact = rec_eval
     try:
+        ckw = {"convergence_diff": fl(c["convergence_diff"])} if c.get("convergence_diff") else {}
         learner = B.FSCBoundedPolicyIteration(controller_state_count=int(c["nodes"]), iterations=int(c["iterations"]),
-                                              seed=int(c["seed"]), improve_node_fn=rec_lp)
+                                              seed=int(c["seed"]), improve_node_fn=rec_lp, **ckw)
         if c.get("pomdp_prev"):
             # object reuse: the same learner first trained on another POMDP (same labels, other numbers, possibly other sizes)
             first = learner.train_on(build_pomdp(c["pomdp_prev"]))
@@ -354,7 +374,7 @@ def run_bpi(c):
             for k in range(int(c["iterations"])):
                 try:
                     rk = B.FSCBoundedPolicyIteration(controller_state_count=int(c["nodes"]), iterations=k,
-                                                     seed=int(c["seed"]), improve_node_fn=base_fn).train_on(pomdp)
+                                                     seed=int(c["seed"]), improve_node_fn=base_fn, **ckw).train_on(pomdp)
                     pre.append({"pi": fjn(rk.policy.action_strategy), "om": fjn(rk.policy.observation_strategy),
                                 "init": fjn(rk.policy.initial_state_dist), "value": fj(rk.value),
                                 "V": fjn(rk.state_controller_value), "converged": bool(rk.converged)})
@@ -400,6 +420,7 @@ def run_ga(c):
     from msdm.algorithms.fscgradientascent import FSCGradientAscent
     pomdp = build_pomdp(c["pomdp"])
     out = lists(pomdp)
+    prime_with_other_discount(pomdp, c)
     dtype = getattr(torch, c.get("dtype", "float64"))
     try:
         kw = {}
